@@ -13,7 +13,8 @@
             VIOL C11  what the statement constrains: the list shows exactly the non-ignored entries (partial
                       upload under its final name); every listed complete file / folder answers get-info under its
                       listed name; list / get-info / download reply / disk agree on size and type for complete
-                      fork-less files; forks travel or vanish, and stay with a file that stays (forks-lost);
+                      fork-less files; forks travel or vanish, and stay with a file that stays (forks-lost), entries the request does
+                      not name keep theirs (forks-of-bystander-changed);
                       new-folder never replaces; well-formed requests
                       change the tree exactly as Files!Do (D = {}) says
             DRIFT     any other disagreement between model and code (counts, fork totals, odd requests)
@@ -131,11 +132,15 @@ ReqEv ==
       obs == {Mask([d |-> x.d, p |-> x.p, k |-> x.k, s |-> x.s], rootp) : x \in SeqToSet(e.diff)}
       outObs == {x \in obs : ~InTrees(x.p, rootp, usersp)}
       obsNames == Counts(DOMAIN e.names, LAMBDA i : e.names[i])
+      (* did the account manager start again on the directory the requests left behind (last operation "restart") *)
+      obsRs == IF e.kind = "acct" /\ Len(e.ops) > 0 /\ e.ops[Len(e.ops)].op = "restart" /\ Len(e.reps) = Len(e.ops)
+                 THEN e.reps[Len(e.reps)] ELSE "none"
       R(D) == Do(tree, mem, e, rootp, usersp, ignore, D)
       Match(D) == LET r == R(D) IN
                   /\ Strict(Diff(tree, r.t, rootp)) = Strict(obs)
                   /\ \A x \in obs : (x.d = "~" /\ ~Inside(x.p, rootp)) => x.p \in r.eff
                   /\ (e.kind = "list" => (r.listed = (e.listed = 1)) /\ (r.listed => r.names = obsNames))
+                  /\ (e.kind = "acct" => r.rs = obsRs)
       explained == \E i \in DOMAIN DevSets : Match(DevSets[i])
       viol == outObs # {} \/ e.disclosed = 1
       (* the deviation set that reproduces the observation (the pinned tree's if none does), and the members of it
@@ -149,7 +154,7 @@ ReqEv ==
           THEN Once(e.run, "c07") => Report("VIOL", "C07", e, "escape",
                                             [outside |-> outObs, disclosed |-> e.disclosed, explained |-> explained, blame |-> blame])
           ELSE (~explained /\ Once(e.run, "drift")) =>
-                  Report("DRIFT", "C07", e, "drift-effects", [observed |-> obs, model |-> Diff(tree, R({}).t, rootp),
+                  Report("DRIFT", "C07", e, "drift-effects", [observed |-> obs, restart |-> <<obsRs, R({}).rs>>, model |-> Diff(tree, R({}).t, rootp),
                                                                pinned |-> Diff(tree, R(Pinned).t, rootp), names |-> R({}).names])
      /\ seen' = seen \cup (IF viol THEN {<<e.run, "c07">>} ELSE IF ~explained THEN {<<e.run, "drift">>} ELSE {})
      /\ UNCHANGED fvars
@@ -165,11 +170,13 @@ StepEv ==
       nf == NewFolderNeverReplacesObs(e, T0, T1)
       ft == ForksTravelObs(e, T0, T1, rootp)
       fs == ForksStayObs(e, T0, T1, rootp)
+      by == BystanderForksObs(e, T0, T1, rootp)
       opF == (IF ~nf THEN {[cls |-> "newfolder-replaced"]} ELSE {})
+             \cup (IF ~by THEN {[cls |-> "forks-of-bystander-changed", changed |-> Diff(T0, T1, rootp)]} ELSE {})
              \cup (IF ~fs THEN {[cls |-> "forks-lost", lost |-> Diff(T0, T1, rootp)]} ELSE {})
              \cup (IF ~ft THEN {[cls |-> "forks-left-behind", before |-> Diff(T1, T0, rootp)]} ELSE {})
-             \cup (IF nf /\ ft /\ fs /\ wf /\ ~okSpec THEN {[cls |-> "op-not-as-requested", observed |-> Diff(T0, T1, rootp), requested |-> Diff(T0, spec, rootp)]} ELSE {})
-             \cup (IF nf /\ ft /\ fs /\ ~wf /\ ~okAny THEN {[cls |-> "drift-op", observed |-> Diff(T0, T1, rootp), model |-> Diff(T0, spec, rootp)]} ELSE {})
+             \cup (IF nf /\ ft /\ fs /\ by /\ wf /\ ~okSpec THEN {[cls |-> "op-not-as-requested", observed |-> Diff(T0, T1, rootp), requested |-> Diff(T0, spec, rootp)]} ELSE {})
+             \cup (IF nf /\ ft /\ fs /\ by /\ ~wf /\ ~okAny THEN {[cls |-> "drift-op", observed |-> Diff(T0, T1, rootp), model |-> Diff(T0, spec, rootp)]} ELSE {})
       F == opF \cup ViewFindings(e, T1, ignore, rootp)
   IN /\ e.op = "step"
      /\ ReportFindings(e, F)
